@@ -17,5 +17,8 @@ No(why) == [ok |-> FALSE, why |-> why]
 \* first failing check of a sequence of <<condition, message>> pairs
 RECURSIVE FirstBad(_)
 FirstBad(cs) == IF Len(cs) = 0 THEN Ok ELSE IF Head(cs)[1] THEN FirstBad(Tail(cs)) ELSE No(Head(cs)[2])
+\* the closing event of a recorder that kept references to results (ev.Hold): none of them may have changed since it was returned
+HeldVerdict(e) == IF Len(e.changed) = 0 THEN Ok
+                  ELSE No("a result returned earlier (or an argument buffer) was changed by a later call - the slice aliases storage that is reused: " \o ToString(e.changed))
 Report(l, e, r) == IF r.ok THEN TRUE ELSE PrintT("REJECT line=" \o Str(l) \o " id=" \o Str(e.id) \o " ev=" \o e.ev \o " why=" \o r.why)
 =============================================================================
